@@ -22,6 +22,7 @@ package main
 
 import (
 	"fmt"
+	"net"
 	"sort"
 	"strings"
 	"sync"
@@ -106,6 +107,7 @@ type scenario struct {
 	prevRefs map[uint64]int
 	queries  int
 	prefetch int
+	ecsID    int
 
 	// race: while set, the incarnation's server moves the virtual clock past its own
 	// lease end just before it answers an `sr.` query with a self-referral — the
@@ -838,13 +840,31 @@ func execQuery(s *scenario, f []string) vlib.Res {
 		return vlib.Res{Impl: "bad-op"}
 	}
 	fl := l3.Flags{}
+	withECS := false
 	for _, x := range f[4:] {
 		switch x {
 		case "do":
 			fl.DO = true
 		case "cd":
 			fl.CD = true
+		case "ecs":
+			withECS = true // the client's query carries an EDNS Client Subnet option
 		}
+	}
+	ask := func() *dns.Msg {
+		if !withECS {
+			return s.p.Query(f[2], qt, fl)
+		}
+		req := new(dns.Msg)
+		req.SetQuestion(dns.Fqdn(f[2]), qt)
+		s.ecsID++
+		req.Id = uint16(40000 + s.ecsID)
+		req.RecursionDesired = true
+		req.CheckingDisabled = fl.CD
+		req.SetEdns0(1232, fl.DO)
+		o := req.IsEdns0()
+		o.Option = append(o.Option, &dns.EDNS0_SUBNET{Code: dns.EDNS0SUBNET, Family: 1, SourceNetmask: 24, Address: net.IPv4(198, 51, 100, 0).To4()})
+		return s.p.Exchange(req, fl)
 	}
 	s.quiesce()
 	vq := s.vnow()
@@ -852,7 +872,7 @@ func execQuery(s *scenario, f []string) vlib.Res {
 	if fl.CD {
 		lin = 1
 	}
-	resp := s.p.Query(f[2], qt, fl)
+	resp := ask()
 	s.queries++
 	verdict := "ok"
 	softQ := ""
@@ -968,7 +988,7 @@ func execQuery(s *scenario, f []string) vlib.Res {
 				for try := 0; try < 2; try++ {
 					s.quiesce()
 					s.p.Advance(10 * time.Second)
-					if r2 := s.p.Query(f[2], qt, fl); r2 == nil || r2.Rcode == dns.RcodeServerFailure {
+					if r2 := ask(); r2 == nil || r2.Rcode == dns.RcodeServerFailure {
 						failed++
 					}
 				}
@@ -978,7 +998,7 @@ func execQuery(s *scenario, f []string) vlib.Res {
 					for try := 0; try < 2 && failed == 3; try++ {
 						s.quiesce()
 						s.p.Advance(301 * time.Second)
-						if r2 := s.p.Query(f[2], qt, fl); r2 != nil && r2.Rcode != dns.RcodeServerFailure {
+						if r2 := ask(); r2 != nil && r2.Rcode != dns.RcodeServerFailure {
 							failed = 0
 						}
 					}
@@ -1361,6 +1381,10 @@ func genL3Case(r *vlib.R, n int, emit func(string)) int {
 	V := chainNames[vic-1]
 	deepest := chainNames[depth-1]
 	cdMode := 2 // 0 never, 1 always, 2 sometimes
+	ecsMode := 2
+	if kind == 3 || (kind == 8 && r.Chance(1, 2)) {
+		ecsMode = 1 // every hot query (hence every prefetch claim) comes from an ECS client
+	}
 	fl := func() string {
 		s := ""
 		if r.Chance(1, 2) {
@@ -1368,6 +1392,9 @@ func genL3Case(r *vlib.R, n int, emit func(string)) int {
 		}
 		if cdMode == 1 || (cdMode == 2 && r.Chance(1, 8)) {
 			s += " cd"
+		}
+		if ecsMode == 1 || (ecsMode == 2 && r.Chance(1, 6)) {
+			s += " ecs" // a client behind an ECS-adding forwarder: its hits may claim the prefetch
 		}
 		return s
 	}
